@@ -38,6 +38,11 @@ type Define struct {
 	Line   int
 }
 
+type OthersClause struct {
+	Var  QVar
+	C    *Clause
+}
+
 type Let struct {
 	Name string
 	E    Expr
@@ -75,6 +80,9 @@ type Contract struct {
 	Ghost     []QVar
 	Defines   []*Define
 	Returns   []*Clause // closures: functional postconditions (may mention parameters and result only)
+	Each      []*Clause // accumulating closures: fact established for the key (first argument) of this invocation
+	Others    []*OthersClause // accumulating closures: what holds for every key other than this invocation's
+	CbArgs    *Clause   // callees: what every callback invocation's arguments (a0, a1) satisfy
 	Decreases *Clause
 	Flags     map[string]bool // inline, trusted, wraps, nocheck
 	Line      int
@@ -253,7 +261,18 @@ func loadContracts(path string) (*ContractFile, error) {
 			}
 			d.E = e
 			cur.Defines = append(cur.Defines, d)
-		case "requires", "ensures", "on_panic", "invariant", "assigns", "panics_iff", "panics_if", "decreases", "returns":
+		case "others":
+			// others <var> <type> :: <expr>
+			m := regexp.MustCompile(`^([A-Za-z_][A-Za-z0-9_]*)\s+([a-z0-9]+)\s*::\s*(.*)$`).FindStringSubmatch(rest)
+			if m == nil {
+				return nil, fmt.Errorf("contracts:%d: bad others clause", ln)
+			}
+			e, err := parseSpec(m[3])
+			if err != nil {
+				return nil, fmt.Errorf("contracts:%d: %v", ln, err)
+			}
+			cur.Others = append(cur.Others, &OthersClause{Var: QVar{m[1], m[2]}, C: &Clause{Label: fmt.Sprintf("others%d", len(cur.Others)+1), Src: m[3], E: e, Props: cur.Props, Line: ln}})
+		case "requires", "ensures", "on_panic", "invariant", "assigns", "panics_iff", "panics_if", "decreases", "returns", "each", "callback_args":
 			c, err := mk()
 			if err != nil {
 				return nil, err
@@ -265,6 +284,10 @@ func loadContracts(path string) (*ContractFile, error) {
 				cur.Ensures = append(cur.Ensures, c)
 			case "returns":
 				cur.Returns = append(cur.Returns, c)
+			case "each":
+				cur.Each = append(cur.Each, c)
+			case "callback_args":
+				cur.CbArgs = c
 			case "on_panic":
 				cur.OnPanic = append(cur.OnPanic, c)
 			case "assigns":
